@@ -54,7 +54,9 @@ Definition xml_comment (s : str) : res str :=
   end.
 
 Definition is_md_open (c : char) : bool := (c =? 40) || (c =? 34) || (c =? 39).
-Definition blank_all (s : str) : str := concat (map (fun c => spaces (u8len c)) s).
+(* every byte becomes a space, line breaks are kept *)
+Definition blank_all (s : str) : str :=
+  concat (map (fun c => if c =? 10 then [10] else spaces (u8len c)) s).
 
 (* Markdown link reference definition used as a comment: [//]: # (text) *)
 Definition md_ref_comment (s : str) : option str :=
